@@ -238,6 +238,10 @@ func runOne(seed uint64, n int, out *bufio.Writer, long bool) {
 		}
 		bump("handler_mid_block_at_import_start", 1)
 	}
+	var queued *massutil.Block
+	if steer == "queued" {
+		queued = payBlock() // the node has the block already; its announcement follows the start of the import
+	}
 	g.Arm()
 	var twin *hist.WInfo
 	if useJSON {
@@ -252,7 +256,7 @@ func runOne(seed uint64, n int, out *bufio.Writer, long bool) {
 		time.Sleep(30 * time.Millisecond) // the worker is in asyncImport, blocked on (or about to send) suspend
 		g.Release()                       // the handler finishes the block and then parks
 	} else if steer == "queued" {
-		d.Announce(payBlock())
+		d.Announce(queued) // the node is not touched here: the worker may be reading it
 		bump("announcement_queued_at_import_start", 1)
 	}
 	// every address of the original that the chain ever paid must have been discovered
